@@ -25,6 +25,13 @@ func (c *refCapture) Generate(r *api.GenerateServiceRequest) (*api.GenerateServi
 
 // referenceRun generates the same program in-process, without any transport,
 // into refOut and captures the request a plugin would be handed.
+func prefixOf(sc *Scenario) string {
+	if sc.PkgPrefix != "" {
+		return sc.PkgPrefix
+	}
+	return "example.com/gen"
+}
+
 func referenceRun(sc *Scenario, env *Env, refOut string) (req *api.GenerateServiceRequest, files map[string]string, err error) {
 	defer func() {
 		if r := recover(); r != nil {
@@ -40,7 +47,7 @@ func referenceRun(sc *Scenario, env *Env, refOut string) (req *api.GenerateServi
 	cap := &refCapture{}
 	opts := &gen.Options{
 		OutputDir:     refOut,
-		PackagePrefix: "example.com/gen",
+		PackagePrefix: prefixOf(sc),
 		ThriftRoot:    filepath.Join(env.Root, filepath.FromSlash(thriftRootRel(sc))),
 		NoRecurse:     sc.NoRecurse,
 		OutputFile:    sc.OutputFile,
